@@ -85,10 +85,14 @@ def args_text(c):
     raise ValueError(a)
 
 
+SHARED = {"none": "", "bare_variant": "{_variant}", "wrap": "[{_variant}]"}
+
+
 def key_of(c):
+    sh = f"enum-level {SHARED[c['sh']]}|" if c["sh"] != "none" else ""
     if not c["hasAttr"]:
-        return f"{c['D']}|{'n' if c['named'] else 't'}{c['nfields']}|<no attribute>"
-    return f"{c['D']}|{'n' if c['named'] else 't'}{c['nfields']}|{literal(c)}{args_text(c)}"
+        return f"{sh}{c['D']}|{'n' if c['named'] else 't'}{c['nfields']}|<no attribute>"
+    return f"{sh}{c['D']}|{'n' if c['named'] else 't'}{c['nfields']}|{literal(c)}{args_text(c)}"
 
 
 def decl(c):
@@ -105,7 +109,8 @@ def decl(c):
             body = "(" + ", ".join("P" for _ in range(n)) + ")"
             init = "S::V(" + ", ".join(f"P({i + 1})" for i in range(n)) + ")"
         other = f'#[{ATTR[D]}("other")] W' if D != "Display" else "W"
-        return f"#[derive(derive_more::{D})]\npub enum S {{ {attr}V{body}, {other} }}", init
+        shared = f'#[{ATTR[D]}("{SHARED[c["sh"]]}")]\n' if c["sh"] != "none" else ""
+        return f"#[derive(derive_more::{D})]\n{shared}pub enum S {{ {attr}V{body}, {other} }}", init
     if named:
         body = "{ " + ", ".join(f"pub {nm}: P" for nm in ["a", "b"][:n]) + " }"
         init = "S { " + ", ".join(f"{nm}: P({i + 1})" for i, nm in enumerate(["a", "b"][:n])) + " }"
@@ -152,6 +157,10 @@ def run(chk, tier, seed, replay):
     for rec in r.cases:
         c = rec["c"]
         k = key_of(c)
+        if c["sh"] != "none":
+            # an enum-level attribute exists on enums only: the variant form, always
+            cases["variant|" + k] = (dict(c, as_variant=True), rec["doc"], rec["impl"])
+            continue
         if k in cases:
             # different structures may render to the same text only if the model is ambiguous
             if cases[k][1] != rec["doc"]:
@@ -167,13 +176,27 @@ def run(chk, tier, seed, replay):
         cases = {k: v for k, v in cases.items() if k == want}
     chk.cov["exhaustive"] = not replay
     ok_mods, rej = [], []
+    # rustc's cost grows with the number of format! calls: the thorough tier gives every case a rotating eighth of
+    # the 192-spec grid (all cases x all specs would be 2.6M calls) and bounds the number of rejected derives compiled
+    rot = 8 if tier == "thorough" and not replay else 1
+    nspec, subsets = {}, {}
+    rej_sel = vlib.cap_cases([k for k, v in cases.items() if v[1][0] == "error"], seed, 4000 if tier == "quick" else 12000)
     for k, (c, doc, impl) in cases.items():
         if doc[0] == "error":
-            rej.append((k, "use super::*;\n" + decl(c)[0]))
+            if k in rej_sel:
+                rej.append((k, "use super::*;\n" + decl(c)[0]))
         else:
-            ok_mods.append((k, module(c, k, doc, specs)))
-    log(f"[C05] {len(ok_mods)} accept cases x {len(specs)} specs, {len(rej)} reject cases")
-    nsh = 4
+            sp = specs[vlib.seeded_pick(k, seed, rot)::rot]
+            nspec[k] = len(sp)
+            subsets[k] = sp
+            ok_mods.append((k, module(c, k, doc, sp)))
+    log(f"[C05] {len(ok_mods)} accept cases x {len(specs) // rot} specs, {len(rej)} reject cases")
+    nsh = 4 if tier == "quick" else 8
+    rej_future = None
+    if rej:
+        import concurrent.futures as cf0
+        rej_ex = cf0.ThreadPoolExecutor(max_workers=1)
+        rej_future = rej_ex.submit(vlib.verdict_crate_sharded, "c05_reject", rej, 4, prelude=PRELUDE, features=("display", "debug"))
     shards = [ok_mods[i::nsh] for i in range(nsh)]
     import concurrent.futures as cf
 
@@ -188,7 +211,7 @@ def run(chk, tier, seed, replay):
     for i, (obs, failed, br) in enumerate(results):
         for k, _ in shards[i]:
             c, doc, impl = cases[k]
-            chk.cov["evaluations"] += len(specs)
+            chk.cov["evaluations"] += nspec[k]
             if doc[0] == "pass":
                 nontriv += 1
             if k in failed:
@@ -203,14 +226,14 @@ def run(chk, tier, seed, replay):
                 what = ("caller's flags do not reach the inner argument as if it were formatted directly"
                         if doc[0] == "pass" else "caller's flags change the output of a non-transparent format")
                 chk.deviation(k, f"{what}: {o['bad']} of {o['n']} outer specs differ; first (spec index, got, want): {o['first'][:2]}",
-                              case={"decl": decl(c)[0], "outer_specs": specs}, expected=doc, observed=o,
+                              case={"decl": decl(c)[0], "outer_specs": subsets[k]}, expected=doc, observed=o,
                               tags={"kind": "flags_" + doc[0]})
             if len(chk.cov["samples"]) < 4 and doc[0] == "pass" and c["hasAttr"]:
                 chk.sample({"decl": decl(c)[0], "expected": doc, "outer_specs_checked": o["n"], "differences": o["bad"]})
         chk.cov["traces_validated_against_impl"] += len(shards[i])
     chk.cov["distinct_nontrivial"] += nontriv
     if rej:
-        per, br = vlib.verdict_crate("c05_reject", rej, prelude=PRELUDE, features=("display", "debug"))
+        per, br = rej_future.result()
         for k, _ in rej:
             chk.cov["evaluations"] += 1
             if not [d for d in per[k] if d["level"] == "error"]:
